@@ -35,13 +35,14 @@ SESSIONS_QUICK = [
     ("tric", [[2, 0, 0], [0, 2, 0], [0, 0, 2]], [2, 3, 2]),
     ("hcp", [[2, 0, 0], [0, 2, 0], [0, 0, 1]], [3, 3, 2]),
     ("tetab", [[2, 0, 0], [0, 2, 0], [0, 0, 1]], [2, 2, 3]),
+    ("bcc", [[2, 0, 0], [0, 2, 0], [0, 0, 2]], [4, 3, 3]),
+    ("wz", [[2, 0, 0], [0, 2, 0], [0, 0, 1]], [3, 3, 2]),
 ]
 SESSIONS_THOROUGH = SESSIONS_QUICK + [
     ("sc", [[2, 0, 0], [0, 2, 0], [0, 0, 2]], [4, 4, 4]),
-    ("bcc", [[2, 0, 0], [0, 2, 0], [0, 0, 2]], [4, 3, 3]),
-    ("wz", [[2, 0, 0], [0, 2, 0], [0, 0, 1]], [3, 3, 2]),
     ("nacl", [[1, 0, 0], [0, 1, 0], [0, 0, 1]], [3, 3, 3]),
-    ("naclg", [[1, 0, 0], [0, 1, 0], [0, 0, 2]], [2, 2, 2]),
+    ("naclg", [[1, 0, 0], [0, 1, 0], [0, 0, 2]], [3, 2, 2]),
+    ("naclg", [[1, 0, 0], [0, 1, 0], [0, 0, 2]], [2, 2, 2]),   # shifted 2x2x2: one orbit, every simplex flat, DOS = 0
     ("tric", [[2, 0, 0], [0, 2, 0], [0, 0, 2]], [4, 2, 3]),
     ("hcp", [[2, 0, 0], [0, 2, 0], [0, 0, 1]], [5, 5, 3]),
     ("cscl", [[2, 0, 0], [0, 2, 0], [0, 0, 1]], [4, 4, 4]),
@@ -225,6 +226,9 @@ def run_session(ctx, entry, S, mesh_numbers, k, mg):
     span = fmax - fmin
     pitch = span / 48.0
     grid = dict(freq_min=fmin - 0.07 * span, freq_max=fmax + 0.05 * span, freq_pitch=pitch)
+    # smearing widths: between 1/40 and 1/12 of the spectrum (the default frequency grid then has
+    # at least three points per width: quadrature error of the trapezoid rule below 1e-8)
+    sig = dict(normal=float(span / rng.uniform(12.0, 40.0)), cauchy=float(span / rng.uniform(12.0, 40.0)))
 
     def best_match(real, make_def):
         """residual against the definition for the best candidate main diagonal (exact ties of the
@@ -307,7 +311,7 @@ def run_session(ctx, entry, S, mesh_numbers, k, mg):
     def total_smear(st, kname, mesh_obj=None, fr=None):
         mesh_obj = mesh_obj or mo
         fr = freqs if fr is None else fr
-        sigma = float(span / (25.0 if kname == "normal" else 40.0))
+        sigma = sig[kname]
         if kname == "normal":
             ph.run_total_dos(sigma=sigma)
             d = ph.get_total_dos_dict()
@@ -321,7 +325,7 @@ def run_session(ctx, entry, S, mesh_numbers, k, mg):
         st["npoints"] = len(fp)
         total_checks(st, fp, dos, nb, mg)
         ref = def_dos_smear(kname, sigma, fr, mesh_obj.weights, fp)
-        res = float(np.max(np.abs(dos - ref)) / np.max(np.abs(ref)))
+        res = float(np.max(np.abs(dos - ref)) / max(float(np.max(np.abs(ref))), 1e-12))
         st["matches"] = cls(res, TOL_POINT)
         mg.note("smearing total point-wise", res, TOL_POINT)
         wq = np.array(mesh_obj.weights, dtype=float)
@@ -347,7 +351,7 @@ def run_session(ctx, entry, S, mesh_numbers, k, mg):
     cell_inv = np.linalg.inv(ph.primitive.cell)
 
     def projected(st, kind, method):
-        sigma = None if method == "tetrahedron" else float(span / 25.0)
+        sigma = None if method == "tetrahedron" else sig["normal"]
         dirs = [None] if kind != "direction" else [triad[i] @ cell_inv for i in range(3)]
         tot_fp, tot = fp_t["thm"] if method == "tetrahedron" else fp_t["normal"]
         kw = dict(grid) if method == "tetrahedron" else dict(freq_min=tot_fp[0], freq_max=tot_fp[-1],
@@ -370,14 +374,14 @@ def run_session(ctx, entry, S, mesh_numbers, k, mg):
                 res = best_match(pd, lambda dd: def_dos_thm(def_gp_weights("I", tup[dd][0], fp), tup[dd][1], tup[dd][2], co))
             else:
                 ref = def_dos_smear("normal", sigma, freqs, mo.weights, fp, co)
-                res = float(np.max(np.abs(pd - ref)) / np.max(np.abs(ref)))
+                res = float(np.max(np.abs(pd - ref)) / max(float(np.max(np.abs(ref))), 1e-12))
             worst = max(worst, res)
             acc = pd.sum(axis=0) if acc is None else acc + pd.sum(axis=0)
         st["nproj"] = int(nproj)
         st["finite"], st["nonneg"] = ok_fin, ok_nn
         st["matches"] = cls(worst, TOL_POINT)
         mg.note("projected point-wise", worst, TOL_POINT)
-        add = float(np.max(np.abs(acc - tot)) / np.max(np.abs(tot)))
+        add = float(np.max(np.abs(acc - tot)) / max(float(np.max(np.abs(tot))), 1e-12))
         st["additive"] = cls(add, TOL_POINT)
         mg.note("projected additivity", add, TOL_POINT)
 
